@@ -290,29 +290,28 @@ impl Envelope {
         let result: Option<Result<Option<Envelope>>> = signature_objects.iter().find_map(|signature_object| {
             let signature_object_subject = signature_object.subject();
             if signature_object_subject.is_wrapped() {
-                if
-                    let Ok(outer_signature_object) = signature_object.object_for_predicate(
-                        known_values::SIGNED
-                    )
-                {
-                    if let Ok(outer_signature) = outer_signature_object.extract_subject::<Signature>() {
-                        if !signature_object_subject.is_signature_from_key(&outer_signature, key) {
-                            return None;
-                        }
-                    } else {
-                        return Some(Err(anyhow::anyhow!("Unexpected outer signature object type.")));
-                    }
+                // The wrapped signature-with-metadata MUST itself be signed by
+                // the same key: at least one outer signature has to verify.
+                let outer_signature_is_valid = signature_object
+                    .objects_for_predicate(known_values::SIGNED)
+                    .iter()
+                    .filter_map(|outer_signature_object| outer_signature_object.extract_subject::<Signature>().ok())
+                    .any(|outer_signature| signature_object_subject.is_signature_from_key(&outer_signature, key));
+                if !outer_signature_is_valid {
+                    return None;
                 }
 
                 let signature_metadata_envelope = signature_object_subject.unwrap_envelope().unwrap();
                 if let Ok(signature) = signature_metadata_envelope.extract_subject::<Signature>() {
                     let signing_target = self.subject();
                     if !signing_target.is_signature_from_key(&signature, key) {
-                        return Some(Err(anyhow::anyhow!("Inner signature not made with same key as outer signature.")));
+                        // The key signed the wrapper but not this subject:
+                        // not a signature of this envelope by this key.
+                        return None;
                     }
                     Some(Ok(Some(signature_metadata_envelope)))
                 } else {
-                    Some(Err(anyhow::anyhow!("Unexpected inner signature object type.")))
+                    None
                 }
             } else if let Ok(signature) = signature_object.extract_subject::<Signature>() {
                 if !self.is_signature_from_key(&signature, key) {
@@ -320,7 +319,8 @@ impl Envelope {
                 }
                 Some(Ok(Some(signature_object.clone())))
             } else {
-                Some(Err(anyhow::anyhow!("Unexpected signature object type.")))
+                // Not a signature at all: it cannot be a signature from this key.
+                None
             }
         });
 
